@@ -74,3 +74,11 @@ package util
 //@   ensures {C06,C07} ok == (nResults(m) == 1 || (nResults(m) == 2 && isErrorT(resultType(m, 1))))
 //@   ensures {C06,C07} ok ==> ret == resultType(m, 0) && ret != nil && retError == (nResults(m) == 2)
 //@   ensures !ok ==> ret == nil && !retError
+
+// ---- import table (C08, C13, C01) ---------------------------------------------------------------------------------
+
+//@ func (ImportNames).LookupName(i, pkgPath) (name, ok)
+//@   ensures {C10,C13} ok == has(i, pkgPath) && name == cond(ok, i[pkgPath], "")
+//@ func (ImportNames).LookupPath(i, pkgName) (path, ok)
+//@   ensures {C13,C06} ok ==> has(i, path) && i[path] == pkgName
+//@   ensures !ok ==> path == ""
